@@ -145,6 +145,14 @@ claim("C17", "other",
       "the remembered flag is the reported one; conn.weak is stamped from the same-id entry in the housekeeping arm only.",
       "DESIGN.md 5 C17", "The multi-tick statements follow by induction over ticks from these single-step tables (invariants weak_streak <= 14, probation <= 3); the induction is stated in DESIGN.md, not mechanised. Float rounding of the share is not decided.")
 
+claim("C19", "other",
+      "loop-shape and per-iteration path formulas for the parser, decision table of its return value, reaching-definition / who-may-call rules for the queued list, transitive write sets of the apply step, container-mutator census over every &mut hand-off to foreign code, closure-predicate comparison (filter == !retain), cross-site comparison of the label templates",
+      "Decided on every path: the applied list is appended to at one site inside a plain text.lines() loop without early exit, exactly when the trimmed line parses, and nothing else touches it; Refuse iff it is empty, an unreadable file is refused; "
+      "only the Apply arm queues a list and apply_connection_changes is called only with the queued list; applying writes no field of SrtlaConnection / sub-structures / ConnIo and the list and the I/O map are structurally changed only by retain, append, push, remove, insert "
+      "in the two reload bodies; the pruning is unconditional, the removed ids are the conn_ids of the whole pre-prune list failing the retain predicate, each reaches both the tracker purge and the I/O-map removal, the routing choice is cleared whenever the list got shorter, "
+      "and the tracker purge resets every slot of the id; candidates are the new list de-duplicated minus the pre-reload labels, every candidate is attempted once whenever there is one, link and I/O handle are stored together under the link's conn_id, and the three label templates are byte-identical.",
+      "DESIGN.md 5 C19", "Contracts of SmallVec::retain / HashSet / HashMap are trusted; OS-level socket identity and packets in flight on removed links are not decided.")
+
 NOT_APPLICABLE = {}
 ALL = ["C%02d" % i for i in range(1, 21)]
 
